@@ -185,8 +185,14 @@ func c06RefChecks(h *c06run, delivered *gabi.IssueSignatureMessage, attrsGiven [
 	if cred.Signature == nil || len(cred.Attributes) == 0 {
 		return false, "credential without signature/attributes"
 	}
-	if !refimpl.CLValid(pk, cred.Signature, cred.Attributes) {
-		return false, "credential signature fails the reference CL check over the credential's attribute vector"
+	// the signature must be over exactly (secret, attributes) [times the holder's OWN keyshare factor]: evaluate the reference
+	// with the factor the builder was created with, never with one that arrived in the issuer's message
+	own := &gabi.CLSignature{A: cred.Signature.A, E: cred.Signature.E, V: cred.Signature.V, KeyshareP: h.run.KssP}
+	if !refimpl.CLValid(pk, own, cred.Attributes) {
+		return false, "credential signature fails the reference CL check over exactly (secret, attributes) with the holder's own keyshare factor"
+	}
+	if (cred.Signature.KeyshareP == nil) != (h.run.KssP == nil) || (h.run.KssP != nil && cred.Signature.KeyshareP.Cmp(h.run.KssP) != 0) {
+		return false, "the credential carries a keyshare factor that is not the holder's own"
 	}
 	if cred.Attributes[0].Cmp(h.run.Secret) != 0 {
 		return false, "attribute 0 of the credential is not the holder's secret"
@@ -404,7 +410,9 @@ func c06Config(r *mon.Run, cfg c06cfg, jr *rand.Rand, idx int) {
 		intf("witness.u", func(m *gabi.IssueSignatureMessage) **big.Int { return &m.NonRevocationWitness.U }, other.run.Sig.NonRevocationWitness.U)
 		intf("witness.e", func(m *gabi.IssueSignatureMessage) **big.Int { return &m.NonRevocationWitness.E }, other.run.Sig.NonRevocationWitness.E)
 		faults = append(faults,
-			fault{"witness other-run whole", func(m *gabi.IssueSignatureMessage) { m.NonRevocationWitness = cloneWitness(other.run.Sig.NonRevocationWitness) }},
+			fault{"witness other-run whole", func(m *gabi.IssueSignatureMessage) {
+				m.NonRevocationWitness = cloneWitness(other.run.Sig.NonRevocationWitness)
+			}},
 			fault{"witness.sacc other-run", func(m *gabi.IssueSignatureMessage) {
 				m.NonRevocationWitness.SignedAccumulator = cloneSAcc(other.run.Sig.NonRevocationWitness.SignedAccumulator)
 			}},
@@ -471,6 +479,34 @@ func c06Config(r *mon.Run, cfg c06cfg, jr *rand.Rand, idx int) {
 			continue
 		}
 		deliver("fault-sigmsg", v.name, msg, h.run.Attrs, false)
+	}
+
+	// a malicious issuer that signs U*X and ships X as "KeyshareP" inside the signature (two consistent changes)
+	for _, xb := range []int{0, 1} {
+		if xb >= len(pk.R) {
+			continue
+		}
+		X := new(big.Int).Exp(pk.R[xb], randBig(jr, 200), pk.N)
+		issuer := gabi.NewIssuer(h.key.SK, pk, h.run.Context)
+		var msg *gabi.IssueSignatureMessage
+		var err error
+		pvv, _ := mon.Try(func() {
+			msg, err = issuer.IssueSignature(new(big.Int).Mod(mul(h.commit.U, X), pk.N), cloneInts(h.run.Attrs), cloneWitnessFull(h.run.Witness), h.run.Nonce2, h.cfg.blind)
+		})
+		if pvv != nil || err != nil {
+			continue
+		}
+		msg.Signature.KeyshareP = X
+		deliver("fault-sigmsg", fmt.Sprintf("issuer signs U*R%d^k and sends KeyshareP", xb), msg, h.run.Attrs, false)
+		inv := new(big.Int).ModInverse(X, pk.N)
+		msg2 := cloneISM(msg)
+		msg2.Signature.KeyshareP = inv
+		deliver("fault-sigmsg", fmt.Sprintf("issuer signs U*R%d^k and sends the inverse as KeyshareP", xb), msg2, h.run.Attrs, false)
+	}
+	{
+		m := cloneISM(base)
+		m.Signature.KeyshareP = bi(1)
+		deliver("fault-sigmsg", "signature.KeyshareP :=1 (neutral factor from the issuer)", m, h.run.Attrs, false)
 	}
 
 	// ---- faults in the holder's commitment message (issuer must reject) ----
